@@ -70,7 +70,6 @@ var stubPkgPrefixes = []string{
 	"log/slog",
 	"log",
 	"github.com/libp2p/go-libp2p-kad-dht/internal/metrics",
-	"github.com/libp2p/go-libp2p-routing-helpers/tracing",
 }
 
 func (L *Loaded) isStubPkg(path string) bool {
@@ -838,6 +837,9 @@ func init() {
 		return tuple{a[0], span}
 	}
 	natives["github.com/libp2p/go-libp2p-kad-dht/internal.StartSpan"] = startSpan
+	natives["(github.com/libp2p/go-libp2p-routing-helpers/tracing.Tracer).StartSpan"] = func(fr *frame, a []value) value {
+		return startSpan(fr, a[1:])
+	}
 	for _, n := range []string{
 		"github.com/libp2p/go-libp2p-kad-dht/internal.KeyAsAttribute",
 		"github.com/libp2p/go-libp2p-kad-dht/internal.LoggableRecordKeyString",
